@@ -1,7 +1,8 @@
 """C13 - number <-> text conversion is exact when possible and never off by more than an ulp.
 
 (A) regenerate Gen/Strtod.lean from the current strtod.c (digit table, BigNat width, thresholds, size-estimate
-    multiplier, libm log2 table)  (B,C) kernel-check Props/C13 + axiom audit  (D) bit-exact correspondence of the Lean
+    multiplier, C types / casts of the BigNat intermediates, libm log2 table); the modelled functions are alpha-renamed
+    to canonical identifier names before the shape assertions run  (B,C) kernel-check Props/C13 + axiom audit  (D) bit-exact correspondence of the Lean
     model (jm_c13) against the real janet_scan_number[_base] / janet_scan_int64 / janet_scan_uint64 / printing paths in an
     ASan+UBSan wrapper TU around strtod.c, incl. the BigNat digit array after the scaling loops  (E) direct oracle on
     the implementation with exact integer arithmetic: exact when representable, else one of the two adjacent doubles;
@@ -412,14 +413,14 @@ def run(ctx):
     ctx.say("cases %d  kinds %s" % (len(lines), kinds))
     ctx.say("result classes %s  diffs %d  oracle failures %d" % (res_kinds, len(diffs), len(fails)))
     return ctx.finish("proof", cov, assumptions=[
-        "libm: ldexp is exact round-to-nearest-even scaling, log2 values taken from the libm in use at run time (Gen/Strtod.lean log2Table), "
-        "snprintf %.17g is correctly rounded (all three compared bit-for-bit with the model on every run)",
-        "Log2Within1Ulp (hypothesis of huge/tiny_shortcircuit_sound): libm log2((double) b) is within one ulp of the true logarithm; "
-        "the regenerated table is kernel-checked to 2^-14 (log2_table_coarse_check)",
+        "libm: ldexp is exact round-to-nearest-even scaling (modelled, compared bit-for-bit on every run); the log2 values are taken from the libm in "
+        "use at run time (Gen/Strtod.lean log2Table) and CERTIFIED to one ulp by the kernel (log2_table_within_1ulp) - no longer an assumption",
+        "LibcPrinted17 (hypothesis of print17_roundtrip): snprintf %.17g prints a decimal within half a unit in its 17th significant digit of the "
+        "double, and that text is accepted by the scanner (shape [-]d[.ddd][e+-dd]); both compared / exercised on every p17 case",
         "libc_fixed0_exact: snprintf %.0f of an integer-valued double prints its exact decimal expansion (compared on every run)",
-        "uint64/uint32 arithmetic in the BigNat routines does not wrap (bounds proved in Strtod/Lemmas for digits < 2^31, factor <= 36^4; "
-        "the products themselves are modelled in N); the int32 exponent is proved wrap-free (scan_number_faithful, last conjunct)",
-        "ClampSafe (hypothesis of scan_number_faithful) is discharged by clamp_safe from the regenerated clamp constants (eeLimit, eeSat)",
+        "unsigned wrap-freedom of the BigNat routines is PROVED (wrap_free: the C-typed model, widths regenerated from the declarations and casts, equals "
+        "the unbounded model on every input); signed int: exponent, n*31+16 and base^4 proved in range, shamt*31 and 2*newn (bignat_extra) tested only",
+        "ClampSafe is discharged by clamp_safe from the regenerated clamp constants (eeLimit, eeSat)",
     ])
 
 
